@@ -96,7 +96,7 @@ func New(c *LockServerConfig) (*LockServer, func(), error) {
 			locked, err := l.lockMgr.TryLock(lk.Name(), lk.Key(), lk.Size())
 			if err != nil || !locked {
 				slog.Error("Error locking loaded locks lockMgr.TryLock()",
-					"name", lk.Name(), "key", lk.Key(), "error", err.Error(),
+					"name", lk.Name(), "key", lk.Key(), "locked", locked, "error", err,
 				)
 				// Locking failed, remove the loaded lock from sessionMgr
 				l.sessionMgr.RemoveLock(lk.Name(), lk.Key(), sessionId)
